@@ -136,7 +136,7 @@ class Check:
                         os.unlink(f)
                 continue
             if pr.returncode != 0:
-                self.crashed(jp, profile, seed, err.decode())
+                self.crashed(jp, profile, seed, err.decode(), pr.returncode)
                 for f in (tp, sp, jp):
                     if os.path.exists(f):
                         os.unlink(f)
@@ -223,13 +223,21 @@ class Check:
         self.problems.append(("monitor", "a call into the library did not return (profile %s seed %d)" % (profile, seed)))
         self.violations.append({"replay": path, "signature": sig, "why": "deadlock"})
 
-    def crashed(self, journal, profile, seed, err):
-        """The driver process died (a panic that cannot unwind aborts it): the journal holds the history."""
+    def crashed(self, journal, profile, seed, err, rc=1):
+        """The driver process died (a panic that cannot unwind aborts it; an invalid free or a wild pointer ends it
+        with a signal): the journal holds the history."""
         panic_lines = [l for l in err.splitlines() if l.startswith("PANIC ")]
         why = (panic_lines[0] if panic_lines else err[-300:]).strip()
         text = open(journal).read() if os.path.exists(journal) else ""
         ops = [l for l in text.splitlines() if l.startswith("O ")]
-        if not ops or "C13" not in set(self.cfg.get("monitors", [])):
+        mons = set(self.cfg.get("monitors", []))
+        # C13: any death of the process inside a call. C15: a death by signal without a panic, i.e. while memory handed
+        # out by the library was read or released through the library's own free functions
+        by_signal = rc < 0 and not panic_lines
+        if by_signal and not why:
+            why = "the process was ended by signal %d (no panic): invalid free or wild pointer" % (-rc)
+        owner = "C13" if "C13" in mons else ("C15" if ("C15" in mons and by_signal) else None)
+        if not ops or owner is None:
             self.problems.append(("infra", "drive crashed (profile %s seed %d): %s" % (profile, seed, err[-800:])))
             return
         head = [l for l in text.splitlines() if l.startswith("H ") or l.startswith("L ")]
@@ -255,9 +263,9 @@ class Check:
                     i += 1
         body = "\n".join(head + ops + ["E"]) + "\n"
         path = self.save_replay("%s-%s.ops" % (self.prop, hashlib.sha1(sig.encode()).hexdigest()[:10]),
-                                "# C13: the library panicked and the process aborted: %s\n# replay: tools/replay.sh <this file>  (%s)\n%s"
-                                % (why, "re-run confirmed the crash" if confirmed else "crash NOT reproduced on re-run", body))
-        self.problems.append(("monitor", "the library panicked (profile %s seed %d): %s" % (profile, seed, why)))
+                                "# %s: the process died inside a call into the library: %s\n# replay: tools/replay.sh <this file>  (%s)\n%s"
+                                % (owner, why, "re-run confirmed the crash" if confirmed else "crash NOT reproduced on re-run", body))
+        self.problems.append(("monitor", "the process died inside a call into the library (profile %s seed %d): %s" % (profile, seed, why)))
         self.violations.append({"replay": path, "signature": sig, "why": why})
 
     # ---------------------------------------------------------------- decide
